@@ -192,6 +192,7 @@ func RunDriver(o DriverOpts) int {
 	infra := 0
 	var extraViol []Msg
 	excepted := Counters{}
+	triages := 0
 	var wg sync.WaitGroup
 	for i := 0; i < n; i++ {
 		wg.Add(1)
@@ -208,6 +209,17 @@ func RunDriver(o DriverOpts) int {
 					return
 				}
 				wr.sum = wr.checkpoint // what it had measured up to its last progress mark
+				mu.Lock()
+				triages++
+				tooMany := triages > 6
+				mu.Unlock()
+				if tooMany {
+					// every triage costs up to a minute; after six the picture is clear
+					mu.Lock()
+					excepted.Inc("worker_deaths_not_triaged_after_six")
+					mu.Unlock()
+					return
+				}
 				res := triage(self, o, e, base, wr, n, work, replayDir)
 				mu.Lock()
 				switch res.kind {
